@@ -221,10 +221,9 @@ theorem dispatchOne_running_ne (sp : Spec) (w : World) (c : Cmd) (hw : w.wf = .R
       simp only
       split
       · intro he
-        have := setTask_length w.tasks { r with state := .WAITING }
-        simp only at he
-        rw [he] at this
-        exact hne (List.eq_nil_of_length_eq_zero this.symm)
+        have hl := congrArg List.length he
+        simp only [setTask_length, List.length_nil] at hl
+        exact hne (List.eq_nil_of_length_eq_zero hl)
       · exact hne
   · simp
 
